@@ -2,7 +2,8 @@
 import os
 import vlib
 
-SCENARIO = {"C15": 0, "C14": 1, "C02": 2, "C18": 3, "C23": 4}
+SCENARIO = {"C15": 0, "C14": 1, "C02": 2, "C18": 3, "C23": 4, "C16": 5, "C19": 6}
+NSC = 7
 
 def build():
     tdir = os.path.join(vlib.VERIF, "wl-hook", "target-dylib")
@@ -17,14 +18,14 @@ def build():
     d = vlib.cargo_build("wl-hook")
     return os.path.join(tdir, "release", "libopen_coroutine_hook.so"), os.path.join(d, "hooked")
 
-def cases(pid, seed, tier, n, offset=7_000_000):
+def cases(pid, seed, tier, n, offset=7_000_000, crash_policy=None):
     so, binp = build()
     sc = SCENARIO[pid]
     out = []
-    # case indices with the right residue: 5*k + sc
-    idxs = [5 * k + sc for k in range(n)]
+    # case indices with the right residue: NSC*k + sc
+    idxs = [NSC * k + sc for k in range(n)]
     def run1(i):
-        return vlib.run_range([binp, "--seed", str(seed)], i, i + 1, engine="LD_PRELOAD interposition", env={"LD_PRELOAD": so}, case_timeout=60)
+        return vlib.run_range([binp, "--seed", str(seed)], i, i + 1, engine="LD_PRELOAD interposition", env={"LD_PRELOAD": so}, case_timeout=60, crash_policy=crash_policy)
     def one(i):
         cs = run1(i)
         for c in cs:
@@ -67,7 +68,7 @@ def memcheck_cases(pid, seed, n, offset=8_000_000):
     def one(i):
         return vlib.run_range(argv, i, i + 1, engine="valgrind memcheck + LD_PRELOAD", case_timeout=300, crash_policy=pol)
     with ThreadPoolExecutor(max_workers=4) as ex:
-        for cs in ex.map(one, [5 * k + sc for k in range(n)]):
+        for cs in ex.map(one, [NSC * k + sc for k in range(n)]):
             for c in cs:
                 if c.verdict == "violated" and "/memcheck/" not in (c.sig or ""):
                     if not c.sig.startswith(pid + "/") or vlib.TIMING_SIG.search(c.sig or ""):
